@@ -8,7 +8,7 @@ LEVEL = "proof"
 RULE = ("Lean (the models are tied to base.GetMethodT / base.GetClassMethodT by the `lookup` differential stream over generated method tables and inheritance graphs): on the model of GetMethodT/getParentMethodT over Go-map models of TFrame and ClassInheritanceMap (any graph, cycles included): a resolved definition always carries the asked method "
         "name and privacy flag and exists in the table; the class's own definition wins; a direct superclass's / included module's definition is found; nothing is resolved when no key of that name "
         "exists; explicit ancestors registered through AddParentNode come before the implicit Object ancestor for any number of them, so a superclass's override of an Object method wins "
-        "(`addparent` stream against base.AddParentNode). End-to-end: generated hierarchies (superclass chains of depth 1-4, included and extended modules, class << self, initialize, private/protected/public sections, protected calls from descendants and outsiders, overrides of to_s/inspect, classes nested after a section, receiverless calls of module methods, the whole group inside a namespace) with calls whose "
+        "(`addparent` stream against base.AddParentNode); the protected-method check passes for the class itself and for a direct subclass whatever else the graph holds, cycles included (`ancestor` stream against isAncestorNode on generated graphs). End-to-end: generated hierarchies (superclass chains of depth 1-4, included and extended modules, class << self, initialize, private/protected/public sections, protected calls from descendants and outsiders, overrides of to_s/inspect, classes nested after a section, receiverless calls of module methods, the whole group inside a namespace) with calls whose "
         "outcome (resolves / is reported on its row) is computed by a reference model of Ruby's rules; plus same-named classes at several lexical levels with an unqualified superclass inside nested modules "
         "(the innermost enclosing definition is the parent: C27's superclass_innermost, tied by the findns stream). Non-trivial = a hierarchy with at least one inherited call.")
 
@@ -227,6 +227,23 @@ def gen_addparent(rng):
     return "addparent " + " ".join(nodes)
 
 
+def gen_ancestor(rng):
+    """the protected-method check on a generated inheritance graph (chains, diamonds, include/extend edges, cycles)"""
+    frames = ["-", "-", "Mo"]
+    classes = ["A", "B", "C", "D", "E"]
+    es = []
+    for _ in range(rng.randint(0, 7)):
+        inc, ext = rng.choice([(0, 0), (0, 0), (0, 0), (1, 0), (0, 1)])
+        es.append("~".join([rng.choice(frames), rng.choice(classes), rng.choice(frames), rng.choice(classes), str(inc), str(ext)]))
+    if rng.random() < 0.3:
+        es += ["-~A~-~B~0~0", "-~B~-~C~0~0", "-~C~-~A~0~0"]       # a cycle
+    if rng.random() < 0.3:
+        es += ["-~E~-~D~0~0", "-~D~-~C~0~0"]                     # a chain
+    rng.shuffle(es)
+    n = lambda: "~".join([rng.choice(frames), rng.choice(classes), rng.choice("0001"), "0"])
+    return "ancestor %s %s | %s" % (n(), n(), ";".join(es))
+
+
 def gen_ns_case(rng, k):
     """classes of one short name at several lexical levels; `class Sub < Core` must inherit from the innermost enclosing definition"""
     core = "Core%d" % k
@@ -329,7 +346,8 @@ def run(ctx):
         return run_e2e(ctx, 800, "s") + C27.run_samename(ctx, 60, "c16s")
 
     dis3 = common.run_stream(ctx, "addparent", [gen_addparent(ctx.rng) for _ in range(ctx.pick(4000, 40000))])
-    common.conclude(ctx, proof_ok, {"findns": dis, "lookup": dis2, "addparent": dis3}, failures, search)
+    dis4 = common.run_stream(ctx, "ancestor", [gen_ancestor(ctx.rng) for _ in range(ctx.pick(6000, 60000))])
+    common.conclude(ctx, proof_ok, {"findns": dis, "lookup": dis2, "addparent": dis3, "ancestor": dis4}, failures, search)
     evidence(ctx)
 
 
